@@ -129,6 +129,11 @@ func Encode(data []byte, minECCPercent int, userSpecifiedLayers int) (barcode.Ba
 
 // Encode returns an aztec barcode with the given content and color scheme
 func EncodeWithColor(data []byte, minECCPercent int, userSpecifiedLayers int, color barcode.ColorScheme) (barcode.Barcode, error) {
+	// a request for more check bits than the largest symbol holds can never be met; refusing it
+	// here also keeps the eccBits arithmetic below from overflowing
+	if minECCPercent < 0 || minECCPercent > 100*totalBitsInLayer(max_nb_bits, false) {
+		return nil, fmt.Errorf("Illegal value %d for minECCPercent", minECCPercent)
+	}
 	bits := highlevelEncode(data)
 	eccBits := ((bits.Len() * minECCPercent) / 100) + 11
 	totalSizeBits := bits.Len() + eccBits
